@@ -84,12 +84,12 @@ var c16Table = []c16Row{
 }
 
 func runC16(e *Env) {
-	e.Rule = "ALL 256 controller types (128 subsets of {Index, Create, Store, Show, Edit, Update, Delete} x with/without Uses(); Uses() returns a marker middleware for every action incl. unimplemented ones) x base paths {/, /api/, /v1/admin/} x inside/outside a Group (single group, nested groups 2+1 middleware, 3 middleware passed to Resource itself: slices with spare capacity), registered on fresh routers several times (map iteration inside Resource is random), HandleMethodNotAllowed on, cache on/off. Observed: Router.Routes() as (method, path, name) triples, NamedRoutes(), and the answers to 9 methods x {/res, /res/, /res/create, /res/7, /res/create/edit, /res/7/edit, /res/7/x, /other}: answering action + id, marker middleware seen, 405 + Allow set, 404. Oracle: the documented seven-row table filtered by the subset (+ the C06 resolution order). Resource(base, T{}) and Resource(base, &string) must panic. Non-trivial: every (type, base, group) combination; distinct by it."
+	e.Rule = "ALL 256 controller types (128 subsets of {Index, Create, Store, Show, Edit, Update, Delete} x with/without Uses(); Uses() returns a marker middleware for every action incl. unimplemented ones) x base paths {/, /api/, /v1/admin/; inside a group also the empty string, api/, v1/admin/} x inside/outside a Group (single group, nested groups 2+1 middleware, 3 middleware passed to Resource itself: slices with spare capacity), registered on fresh routers several times (every third plain case mounts the same controller type a second time under /second/ on the same router and checks both mounts) (map iteration inside Resource is random), HandleMethodNotAllowed on, cache on/off. Observed: Router.Routes() as (method, path, name) triples, NamedRoutes(), and the answers to 9 methods x {/res, /res/, /res/create, /res/7, /res/create/edit, /res/7/edit, /res/7/x, /other}: answering action + id, marker middleware seen, 405 + Allow set, 404. Oracle: the documented seven-row table filtered by the subset (+ the C06 resolution order). Resource(base, T{}) and Resource(base, &string) must panic. Non-trivial: every (type, base, group) combination; distinct by it."
 	e.Assumptions = []string{
 		"non-strict mode (the documented table is the non-strict one); base paths end in '/' as documented",
 	}
 	e.Exhaustive = true
-	bases := []string{"/", "/api/", "/v1/admin/"}
+	bases := []string{"/", "/api/", "/v1/admin/"} // inside a group also without the leading slash
 	reps := int(e.N(2, 8))
 	combos := int64(len(c16Types) * len(bases) * 2)
 	e.Note("exhaustive_scope", fmt.Sprintf("256 controller types x %d bases x {plain, in group} x %d repetitions", len(bases), reps))
@@ -99,6 +99,10 @@ func runC16(e *Env) {
 		idx /= int64(len(c16Types))
 		base := bases[idx%int64(len(bases))]
 		inGroup := idx/int64(len(bases)) == 1
+		if inGroup && (t.Idx/combos)%2 == 1 {
+			base = strings.TrimPrefix(base, "/") // "", "api/", "v1/admin/": relative to the enclosing group
+		}
+		second := !inGroup && (t.Idx/combos+t.Idx)%3 == 0 // the same controller type is mounted a second time under another base
 		cacheOn := t.Idx%3 == 0
 		t.Describe(func() any {
 			var impl []string
@@ -107,7 +111,7 @@ func runC16(e *Env) {
 					impl = append(impl, a)
 				}
 			}
-			return map[string]any{"controller": ct.Name, "implements": impl, "with_Uses": ct.WithUses, "base": base, "in_group": inGroup, "cache": cacheOn, "middleware_variant(0 none/1 group,1 +3 Resource mw,2 nested groups,3 both)": int(t.Idx/combos+t.Idx) % 4}
+			return map[string]any{"controller": ct.Name, "implements": impl, "with_Uses": ct.WithUses, "base": base, "in_group": inGroup, "mounted_again_under_/second/": second, "cache": cacheOn, "middleware_variant(0 none/1 group,1 +3 Resource mw,2 nested groups,3 both)": int(t.Idx/combos+t.Idx) % 4}
 		})
 		if t.Idx < 2 || t.Idx == 77 {
 			t.wantSample = true
@@ -155,120 +159,135 @@ func runC16(e *Env) {
 			return
 		}
 		resName := strings.ToLower(ct.Name)
-		full, _ := RefNormalize(prefix+base+resName, false)
-
-		// expected table
-		tb := &Table{}
+		own, _ := RefNormalize(base+resName, false)
+		full, _ := RefNormalize(prefix+own, false)
 		wantTriples := map[string]bool{}
 		wantNames := map[string]bool{}
-		fullSegs := []Seg{}
-		for _, s := range strings.Split(strings.Trim(full, "/"), "/") {
-			fullSegs = append(fullSegs, Seg{Pre: s})
+		mounts := []string{full}
+		if second {
+			mounts = append(mounts, "/second/"+resName)
 		}
-		for i, row := range c16Table {
-			if ct.Mask>>i&1 == 0 {
-				continue
-			}
-			pat := &Pattern{Segs: append(append([]Seg{}, fullSegs...), row.Suffix...)}
-			name := resName + "_" + row.Action
-			tb.Routes = append(tb.Routes, &RouteSpec{Name: row.Action, Pat: pat, Methods: row.Methods})
-			wantNames[name] = true
-			for _, m := range row.Methods {
-				wantTriples[m+" "+pat.String()+" "+name] = true
-			}
-		}
-		t.Count("resource.registrations", 1)
-
-		// registered triples
-		gotTriples := map[string]bool{}
-		for _, ri := range router.Routes() {
-			for _, m := range ri.Methods {
-				gotTriples[m+" "+ri.Path+" "+ri.Name] = true
-			}
-		}
-		if d := setDiff(wantTriples, gotTriples); d != "" {
-			t.Fail("registered-table-differs", "Resource(%q, &%s{}) (group %q): registered (method path name) triples differ from the documented table: %s", base, ct.Name, prefix, d)
-			return
-		}
-		gotNames := map[string]bool{}
-		for n := range router.NamedRoutes() {
-			gotNames[n] = true
-		}
-		if d := setDiff(wantNames, gotNames); d != "" {
-			t.Fail("named-routes-differ", "Resource(%q, &%s{}): named routes differ: %s", base, ct.Name, d)
-			return
-		}
-
-		// probe matrix
-		cfg := RouterCfg{NotAllowed: true, CacheCap: -1}
-		paths := []string{full, full + "/", full + "/create", full + "/7", full + "/create/edit", full + "/7/edit", full + "/7/x", "/other", full + "/edit"}
-		for _, path := range paths {
-			for _, method := range AllMethods {
-				want, _ := refResolve(tb, cfg, method, path)
-				rec, pv, panicked := Serve(router, NewReq(method, path))
-				t.Count("resource.probes", 1)
-				t.Tracef("%s %s -> status %d action %q body %q Allow %q events %v", method, path, rec.Status(), rec.Route, rec.Body.String(), rec.H.Get("Allow"), rec.Events)
-				if panicked {
-					t.Fail("servehttp-panics", "%s %s panicked: %v", method, path, pv)
+		for mi, full := range mounts {
+			if mi == 1 {
+				if pv, panicked := catch(func() { router.Resource("/second/", ct.New()) }); panicked {
+					t.Fail("resource-panics", "second Resource(\"/second/\", &%s{}) panicked: %v", ct.Name, pv)
 					return
 				}
-				switch want.Stage {
-				case "direct", "head-get":
-					action := tb.Routes[want.Route].Name
-					d, _ := tb.Routes[want.Route].Pat.RefMatch(strings.TrimRight(path, "/"), 1)
-					id := ""
-					if len(d) > 0 {
-						id = d[0].Params["id"]
+				base, wantGroupEv = "/second/", nil
+				t.Count("resource.second_mount", 1)
+			}
+
+			// expected table
+			tb := &Table{}
+			fullSegs := []Seg{}
+			for _, s := range strings.Split(strings.Trim(full, "/"), "/") {
+				fullSegs = append(fullSegs, Seg{Pre: s})
+			}
+			for i, row := range c16Table {
+				if ct.Mask>>i&1 == 0 {
+					continue
+				}
+				pat := &Pattern{Segs: append(append([]Seg{}, fullSegs...), row.Suffix...)}
+				name := resName + "_" + row.Action
+				tb.Routes = append(tb.Routes, &RouteSpec{Name: row.Action, Pat: pat, Methods: row.Methods})
+				wantNames[name] = true
+				for _, m := range row.Methods {
+					wantTriples[m+" "+pat.String()+" "+name] = true
+				}
+			}
+			t.Count("resource.registrations", 1)
+
+			// registered triples
+			gotTriples := map[string]bool{}
+			for _, ri := range router.Routes() {
+				for _, m := range ri.Methods {
+					gotTriples[m+" "+ri.Path+" "+ri.Name] = true
+				}
+			}
+			if d := setDiff(wantTriples, gotTriples); d != "" {
+				t.Fail("registered-table-differs", "Resource(%q, &%s{}) (group %q): registered (method path name) triples differ from the documented table: %s", base, ct.Name, prefix, d)
+				return
+			}
+			gotNames := map[string]bool{}
+			for n := range router.NamedRoutes() {
+				gotNames[n] = true
+			}
+			if d := setDiff(wantNames, gotNames); d != "" {
+				t.Fail("named-routes-differ", "Resource(%q, &%s{}): named routes differ: %s", base, ct.Name, d)
+				return
+			}
+
+			// probe matrix
+			cfg := RouterCfg{NotAllowed: true, CacheCap: -1}
+			paths := []string{full, full + "/", full + "/create", full + "/7", full + "/create/edit", full + "/7/edit", full + "/7/x", "/other", full + "/edit"}
+			for _, path := range paths {
+				for _, method := range AllMethods {
+					want, _ := refResolve(tb, cfg, method, path)
+					rec, pv, panicked := Serve(router, NewReq(method, path))
+					t.Count("resource.probes", 1)
+					t.Tracef("%s %s -> status %d action %q body %q Allow %q events %v", method, path, rec.Status(), rec.Route, rec.Body.String(), rec.H.Get("Allow"), rec.Events)
+					if panicked {
+						t.Fail("servehttp-panics", "%s %s panicked: %v", method, path, pv)
+						return
 					}
-					wantBody := action + ":" + id
-					if rec.Route != action || rec.Body.String() != wantBody || rec.Status() != 200 {
-						sig := "wrong-action"
-						if action == "create" && rec.Route == "show" {
-							sig = "create-served-by-show"
+					switch want.Stage {
+					case "direct", "head-get":
+						action := tb.Routes[want.Route].Name
+						d, _ := tb.Routes[want.Route].Pat.RefMatch(strings.TrimRight(path, "/"), 1)
+						id := ""
+						if len(d) > 0 {
+							id = d[0].Params["id"]
 						}
-						t.Fail(sig, "%s{%s} base %q: %s %s must be answered by %s (body %q); observed action %q body %q status %d", ct.Name, maskDesc(ct.Mask), base, method, path, action, wantBody, rec.Route, rec.Body.String(), rec.Status())
-						return
-					}
-					// marker middleware: exactly the answering action's (if the controller has Uses)
-					var seen []string
-					var groupEv []string
-					for _, ev := range rec.Events {
-						if strings.HasPrefix(ev, "mw:") {
-							seen = append(seen, strings.TrimPrefix(ev, "mw:"))
+						wantBody := action + ":" + id
+						if rec.Route != action || rec.Body.String() != wantBody || rec.Status() != 200 {
+							sig := "wrong-action"
+							if action == "create" && rec.Route == "show" {
+								sig = "create-served-by-show"
+							}
+							t.Fail(sig, "%s{%s} base %q: %s %s must be answered by %s (body %q); observed action %q body %q status %d", ct.Name, maskDesc(ct.Mask), base, method, path, action, wantBody, rec.Route, rec.Body.String(), rec.Status())
+							return
 						}
-						if strings.HasPrefix(ev, "gmw:") {
-							groupEv = append(groupEv, ev)
+						// marker middleware: exactly the answering action's (if the controller has Uses)
+						var seen []string
+						var groupEv []string
+						for _, ev := range rec.Events {
+							if strings.HasPrefix(ev, "mw:") {
+								seen = append(seen, strings.TrimPrefix(ev, "mw:"))
+							}
+							if strings.HasPrefix(ev, "gmw:") {
+								groupEv = append(groupEv, ev)
+							}
 						}
+						wantSeen := ""
+						if ct.WithUses {
+							wantSeen = action
+						}
+						if strings.Join(seen, ",") != wantSeen {
+							t.Fail("per-action-middleware", "%s{%s} base %q: %s %s answered by %s ran the Uses() middleware of [%s], expected [%s]", ct.Name, maskDesc(ct.Mask), base, method, path, action, strings.Join(seen, ","), wantSeen)
+							return
+						}
+						if strings.Join(groupEv, ",") != strings.Join(wantGroupEv, ",") {
+							t.Fail("group-middleware-differs", "%s{%s} base %q: %s %s answered by %s: group/resource middleware that ran: %v, expected %v (all events %v)", ct.Name, maskDesc(ct.Mask), base, method, path, action, groupEv, wantGroupEv, rec.Events)
+							return
+						}
+						t.Count("resource.answered_by_action", 1)
+					case "not-allowed":
+						wantStatus := 405
+						if method == "OPTIONS" {
+							wantStatus = 200
+						}
+						if rec.Route != "" || rec.Status() != wantStatus || rec.H.Get("Allow") != strings.Join(want.Allowed, ", ") {
+							t.Fail("wrong-405", "%s{%s} base %q: %s %s must be 'method not allowed' with Allow %q; observed action %q status %d Allow %q", ct.Name, maskDesc(ct.Mask), base, method, path, strings.Join(want.Allowed, ", "), rec.Route, rec.Status(), rec.H.Get("Allow"))
+							return
+						}
+						t.Count("resource.answered_405", 1)
+					default:
+						if rec.Route != "" || rec.Status() != 404 {
+							t.Fail("wrong-404", "%s{%s} base %q: %s %s matches nothing in the documented table; observed action %q status %d", ct.Name, maskDesc(ct.Mask), base, method, path, rec.Route, rec.Status())
+							return
+						}
+						t.Count("resource.answered_404", 1)
 					}
-					wantSeen := ""
-					if ct.WithUses {
-						wantSeen = action
-					}
-					if strings.Join(seen, ",") != wantSeen {
-						t.Fail("per-action-middleware", "%s{%s} base %q: %s %s answered by %s ran the Uses() middleware of [%s], expected [%s]", ct.Name, maskDesc(ct.Mask), base, method, path, action, strings.Join(seen, ","), wantSeen)
-						return
-					}
-					if strings.Join(groupEv, ",") != strings.Join(wantGroupEv, ",") {
-						t.Fail("group-middleware-differs", "%s{%s} base %q: %s %s answered by %s: group/resource middleware that ran: %v, expected %v (all events %v)", ct.Name, maskDesc(ct.Mask), base, method, path, action, groupEv, wantGroupEv, rec.Events)
-						return
-					}
-					t.Count("resource.answered_by_action", 1)
-				case "not-allowed":
-					wantStatus := 405
-					if method == "OPTIONS" {
-						wantStatus = 200
-					}
-					if rec.Route != "" || rec.Status() != wantStatus || rec.H.Get("Allow") != strings.Join(want.Allowed, ", ") {
-						t.Fail("wrong-405", "%s{%s} base %q: %s %s must be 'method not allowed' with Allow %q; observed action %q status %d Allow %q", ct.Name, maskDesc(ct.Mask), base, method, path, strings.Join(want.Allowed, ", "), rec.Route, rec.Status(), rec.H.Get("Allow"))
-						return
-					}
-					t.Count("resource.answered_405", 1)
-				default:
-					if rec.Route != "" || rec.Status() != 404 {
-						t.Fail("wrong-404", "%s{%s} base %q: %s %s matches nothing in the documented table; observed action %q status %d", ct.Name, maskDesc(ct.Mask), base, method, path, rec.Route, rec.Status())
-						return
-					}
-					t.Count("resource.answered_404", 1)
 				}
 			}
 		}
